@@ -148,7 +148,7 @@ def poly_post(pre, args, kwargs, result):
     ctx = monitor.CTX
     self = args[0]
     back = ctx.call("ge_polyhedron_config.from_b64", pnd.ge_polyhedron_config.from_b64, result)
-    s1, s2 = digest.array_state(self), digest.array_state(back)
+    s1, s2 = digest.array_state_full(self), digest.array_state_full(back)          # "variables": the column objects themselves, with class and structure
     ctx.check(s1 == s2 and type(back) is type(self), "polyhedron:structure",
               lambda: {"recipe": (ctx.case or {}).get("recipe"), "diff": digest.first_diff(s1, s2), "types": [type(self).__name__, type(back).__name__]})
     ids = [v.id for v in self.variables][1:]
@@ -250,6 +250,21 @@ def run_case(case, ctx):
         if len(ids_) <= 14:
             ctx.call("select", lambda: list(m.select({}, solver=confgen.exact_solver_factory({}))))
     ctx.call("to_b64", m.to_b64)
+    if case["cfg"] and random.Random(case.get("seed", 1) + 7).random() < 0.4:
+        # the same object is packed again after one of its defaulted option groups was replaced in place by its hand-nested plain twin
+        # (same ids, same text form; other class, no default, no priority): the string is about the object as it is now
+        import puan.modules.configurator as ccm
+        for i_, r_ in enumerate(list(m.propositions)):
+            if type(r_) is ccm.Any and getattr(r_, "default", None) and len(r_.propositions) == 2 and any(hasattr(x, "prio") for x in r_.propositions):
+                helper = next(x for x in r_.propositions if hasattr(x, "prio"))
+                dflt = next(x for x in r_.propositions if x is not helper)
+                twin = pg.Any(dflt, pg.Any(*helper.propositions), variable=r_.variable)
+                if twin.propositions and sorted(p_.id for p_ in twin.propositions) == sorted(p_.id for p_ in r_.propositions):
+                    m.propositions[i_] = twin
+                    ctx.count("count:repacked-after-in-place-edit")
+                    ctx.call("to_b64", m.to_b64)
+                break
+        return
     # models returned by the library itself (assume / reduce / negate) are propositions too
     rng = random.Random(case.get("seed", 0))
     g, top, info = adapters.graph_of(m)
